@@ -120,6 +120,43 @@ def data_path_classes(prog, rep):
     return found, default_act
 
 
+def rule_spline_leaves(prog, rep, R):
+    """The spline's tails (identity outside self.interval) meet its knots only if the knot tables end at
+    self.interval for every parameter value.  Every inexact-array pytree leaf of a transformer is a conditioner
+    output (get_ravelled_pytree_constructor) and an optimiser parameter, so the only array leaves of the three
+    parameterised fields may be the raw vectors themselves: the interval ends, the softmax floor and the minimum
+    derivative must be Python-static (or frozen)."""
+    from .leaves import children
+    from .c07 import SPLINE
+    rep.rule(R, "RationalQuadraticSpline: the only inexact-array pytree leaves below x_pos / y_pos / derivatives "
+                "(wrappers.Lambda arguments are pytree children) are the raw parameter vectors; "
+                "interval ends, softmax_adjust, min_derivative are static Python values or NonTrainable - otherwise "
+                "a conditioner / optimiser moves the knot span while the bounds test and identity tails stay fixed, "
+                "and the layer is not a bijection of R onto R", minimum=3)
+    c = prog.cls(SPLINE)
+    site = method_site(prog, c, "__init__")
+    syms = {"knots": "KNOTS", "interval": "INTERVAL", "min_derivative": "MIN_D", "softmax_adjust": "ADJ"}
+    f = Interp(prog).eval_init(c, [], {k: ("sym", v) for k, v in syms.items()})
+    for fld in ("x_pos", "y_pos", "derivatives"):
+        t = f.get(fld)
+        k = f"RationalQuadraticSpline.{fld}:array-leaves"
+        if t is None:
+            rep.undecided(R, site, k, "field not assigned by __init__")
+            continue
+        ch = children(t, static_syms=set(syms.values()))
+        arrays = [(p, x) for p, x, kd in ch if kd == "array"]
+        unknown = [(p, x) for p, x, kd in ch if kd == "unknown"]
+        if len(arrays) > 1:
+            extra = "; ".join(f"{p} = {show(x, 80)}" for p, x in arrays[1:])
+            rep.violated(R, site, k, f"{len(arrays)} inexact-array leaves below {fld}: besides the raw vector, {extra} "
+                                     f"is a pytree leaf that conditioners and optimisers vary, while the bounds test / "
+                                     f"tails use the static self.interval")
+        elif unknown:
+            rep.undecided(R, site, k, f"cannot classify pytree child {unknown[0][0]} = {show(unknown[0][1], 100)}")
+        else:
+            rep.holds(R, site, k, f"{len(arrays)} array leaf (the raw vector); {len(ch) - len(arrays)} static / callable children")
+
+
 def run(prog: Program, rep: Report, tier: str):
     rep.rule("C04.image", "no bijection placed on a flow's data path (the layers built by the five factories, "
                           "_add_default_permute, the default activation of BlockAutoregressiveNetwork) has a provably "
@@ -174,6 +211,10 @@ def run(prog: Program, rep: Report, tier: str):
     from .bij import bijection_classes
     from .c02 import rule_deriv, rule_mask
     rule_deriv(prog, rep, bijection_classes(prog), R="C04.logdet", minimum=14)
+    # structure that must hold for every parameter value, not only the initial one
+    from .c09 import rule_bnaf_raw_masked
+    rule_bnaf_raw_masked(prog, rep, "C04.bnaf-mask")
+    rule_spline_leaves(prog, rep, "C04.static-interval")
     if tier == "thorough":
         from ..audit import audit_generic
         audit_generic(prog, rep, "C04")
